@@ -545,6 +545,10 @@ func (v *Verifier) runPartition(pkg *ssa.Package, fn *ssa.Function, c *Contract,
 	v.noMerge = c.Options["nomerge"] != ""
 	v.opaqueCalls = c.Options["opaque-calls"] != ""
 	v.allowPanic = c.Options["panics-allowed"] != ""
+	v.inlineNames = map[string]bool{}
+	for _, n := range strings.Fields(strings.ReplaceAll(c.Options["inline-callees"], ",", " ")) {
+		v.inlineNames[n] = true // "option inline-callees f g": the bodies of these callees are executed here instead of their contracts
+	}
 	v.opaqueNames = map[string]bool{}
 	for _, n := range strings.Fields(strings.ReplaceAll(c.Options["opaque"], ",", " ")) {
 		v.opaqueNames[n] = true // "option opaque f g": these callees are opaque here even if they have a contract
